@@ -3,6 +3,7 @@ CONSTANTS MaxLen = 3
           Kinds2 = {"req", "opt", "kwreq", "kwopt"}
           Kinds3 = {"req", "opt"}
           Kinds4 = {"req"}
+          PathPolicy = "alongpath"
           MaxE4 = 0
 INIT Init
 NEXT NextGen
